@@ -6,7 +6,7 @@
   "never panics" is the statement `parse? s = some _`, not an artefact of Lean's totality.
 -/
 import IocProofs.Lemmas.TagTotal
--- import IocProofs.Lemmas.TagRound   -- (roundtrip: being proved)
+import IocProofs.Lemmas.TagRound
 namespace Ioc.C19
 open Ioc Ioc.Tag
 
@@ -82,11 +82,31 @@ theorem C19_required (a : Args) :
   | none => simp
   | some items => simp [List.any_eq_true]
 
+/-- Faithfulness: a structured tag `v,name=i1 i2,…` (value and items bracket-balanced with separators only
+    inside brackets, names non-empty without `=` `,` or brackets) parses to exactly what was rendered:
+    the value, and the arguments stored by TagArg.Set in order (so a repeated name keeps the last). -/
+theorem C19_roundtrip (v : Bytes) (as : List (Bytes × List Bytes))
+    (hv : WFpre cComma isLB isRB v 0 = true) (has : ∀ a ∈ as, WFArg a) :
+    parse? (render v as) = some (v, as.foldl (fun m a => setArg m a.1 a.2) []) :=
+  parse?_render v as hv has
+
+/-- strings2.Split is the exact inverse of joining bracket-balanced parts (separators only inside brackets). -/
+theorem C19_split_join (sep : UInt8) (isL isR : UInt8 → Bool) (hsL : isL sep = false) (hsR : isR sep = false)
+    (parts : List Bytes) (hne : parts ≠ []) (hwf : ∀ p ∈ parts, WFpre sep isL isR p 0 = true) :
+    split? sep isL isR (joinB sep parts) = some parts :=
+  split?_joinB sep isL isR hsL hsR parts hne hwf
+
 /-! non-vacuity: concrete, non-trivial inputs meet the hypotheses -/
 
 example : parse? (ofString "a,required=false") = some (ofString "a", [(ofString "Required", [ofString "false"])]) := by decide
 example : isRequired [(ofString "Required", [ofString "false"])] = false := by decide
 example : WFpre cComma isLB isRB (ofString "f(a,b)") 0 = true := by decide
+-- roundtrip hypotheses are met by a bracketed item containing a space, a comma and `=`; and by an empty item
+example : WFArg (ofString "qualifier", [ofString "a", ofString "(b c,d=e)"]) := ⟨by decide, by decide, by decide, by decide⟩
+example : WFArg (ofString "x", [[]]) := ⟨by decide, by decide, by decide, by decide⟩
+example : parse? (render (ofString "v") [(ofString "q", [ofString "a", ofString "(b c)"]), (ofString "q", [ofString "z"])])
+    = some (ofString "v", [(ofString "Q", [ofString "z"])]) := by decide
+example : render (ofString "v") [(ofString "q", [ofString "a", ofString "(b c)"])] = ofString "v,q=a (b c)" := by decide
 -- the unbalanced corner: still total, still in range
 example : parse? (ofString "),(x") = some (ofString "),", [(ofString "X", [[]])]) := by decide
 
